@@ -10,7 +10,7 @@ object population is not decided.
 """
 import ast
 
-from ..astutil import call_simple_name, guard_chain, names_in, returns_of, short
+from ..astutil import call_simple_name, guard_chain, names_in, pm, pmall, returns_of, short
 from ..callgraph import EXACT, get_callgraph
 from ..cfg import cfg_of, node_calls
 from ..forward import flow_of
@@ -232,7 +232,9 @@ def rule_conjunction(ctx):
               file=rel, line=cf.node.lineno, function=cf.qualname, expected="if prop not in obj.keys(): return False", found="absent")
     # recursion for dotted paths and list values: any element
     t = norm(cf.node)
-    okd = "filter_._replace(property=sub_property)" in t and t.count("is True") >= 2 and "split('.', 1)[1]" in t
+    f_ = cf.params[0]
+    okd = pmall(t, "$sp = %s.property.split('.', 1)[1]" % f_, "$sf = %s._replace(property=$sp)" % f_, "_check_filter($sf, ") is not None \
+        and t.count("is True") >= 2
     run.check(okd, R, key(rel, cf.qualname, "dotted-paths-and-lists"), "dotted paths / list-valued properties are no longer matched "
               "element-wise", file=rel, line=cf.node.lineno, function=cf.qualname,
               expected="recurse with the rest of the path; a list matches when any element matches", found="changed")
@@ -252,13 +254,29 @@ def _optimiser_table(fi):
     if len(loops) != 1:
         raise AnalysisError("_find_search_optimizations: loop over the filters not found")
     fvar = norm(loops[0].target)
+    # roles of the accumulators, from how they are used at the end:  return (AuthSet(<allowed types>, <prohibited types>),
+    # AuthSet(<allowed ids>, <prohibited ids>))
+    roles = {}
+    rets = [r for r in body_walk(fi.node) if isinstance(r, ast.Return) and isinstance(r.value, ast.Tuple) and len(r.value.elts) == 2]
+    if len(rets) != 1:
+        raise AnalysisError("_find_search_optimizations: expected `return (types, ids)`")
+    for elt, kind in zip(rets[0].value.elts, ("types", "ids")):
+        call = elt
+        if isinstance(elt, ast.Name):
+            defs = [a.value for a in body_walk(fi.node) if isinstance(a, ast.Assign) and norm(a.targets[0]) == elt.id]
+            call = defs[0] if defs else None
+        if not (isinstance(call, ast.Call) and call_simple_name(call) == "AuthSet" and len(call.args) == 2):
+            raise AnalysisError("_find_search_optimizations: returned %s set is not AuthSet(allowed, prohibited)" % kind)
+        roles[norm(call.args[0])] = "allowed_" + kind
+        roles[norm(call.args[1])] = "prohibited_" + kind
 
     def effects(stmts):
         eff = set()
         for s in stmts:
             t = norm(s)
             if isinstance(s, ast.Assign) and "_update_allow(" in t:
-                tgt = norm(s.targets[0])
+                tgt_name = norm(s.targets[0])
+                tgt = roles.get(tgt_name, tgt_name)
                 arg = s.value.args[1] if isinstance(s.value, ast.Call) and len(s.value.args) > 1 else None
                 if tgt == "allowed_types":
                     if arg is not None and "get_type_from_id" in norm(arg):
@@ -275,11 +293,11 @@ def _optimiser_table(fi):
                 else:
                     eff.add("other:" + t)
                 # first argument must be the same accumulator
-                if isinstance(s.value, ast.Call) and s.value.args and norm(s.value.args[0]) != tgt:
+                if isinstance(s.value, ast.Call) and s.value.args and norm(s.value.args[0]) != tgt_name:
                     eff.add("accumulator-mismatch:" + t)
             elif isinstance(s, ast.Expr) and isinstance(s.value, ast.Call) and isinstance(s.value.func, ast.Attribute) \
                     and s.value.func.attr == "add":
-                recv = norm(s.value.func.value)
+                recv = roles.get(norm(s.value.func.value), norm(s.value.func.value))
                 arg = norm(s.value.args[0]) if s.value.args else ""
                 if recv == "prohibited_types" and arg == fvar + ".value":
                     eff.add("prohibit-type")
@@ -359,8 +377,8 @@ def rule_optimiser(ctx):
     # the matching of directory entries honours white / black lists
     gm = prog.func(FS + "::_get_matching_dir_entries")
     t = norm(gm.node)
-    ok = "if auth_set.auth_type == AuthSet.WHITE" in t and "for value in auth_set.values" in t and "if auth_name in auth_set.values" in t \
-        and "continue" in t
+    a_ = gm.params[1]
+    ok = pmall(t, "if %s.auth_type == AuthSet.WHITE" % a_, "for $v in %s.values" % a_, "if $n in %s.values:\n                continue" % a_) is not None
     run.check(ok, R, key(rel, gm.qualname, "white-black-matching"), "directory matching no longer follows the white/black list",
               file=rel, line=gm.node.lineno, function=gm.qualname, expected="white: only listed; black: all but listed", found="changed")
     # pruning only: the full query is re-applied to every file read
@@ -391,8 +409,7 @@ def rule_optimiser(ctx):
                     chain_ok = False
     cof = prog.func(FS + "::_check_object_from_file")
     t = norm(cof.node)
-    res_ok = "next(apply_common_filters([stix_obj], query), None)" in t and any(
-        isinstance(r.value, ast.Name) for r in returns_of(cof))
+    res_ok = pmall(t, "$o = parse(", "$r = next(apply_common_filters([$o], %s), None)" % cof.params[0], "return $r") is not None
     run.check(ok and chain_ok and res_ok, R, key(rel, "filesystem-search", "full-query-reapplied"),
               "the optimiser's result does more than prune directories: the complete query no longer reaches every file read",
               file=rel, line=q.node.lineno, function="FileSystemSource.query", expected="same `query` passed down and applied by "
